@@ -59,10 +59,6 @@ func packScenario(logN, minLogN int, ch rk.Chain, bound int) engine.Scenario {
 		c.Cover("op", "RingPacking."+op)
 		uni.Seed(c, name, cfg)
 		known := knownKS(p, kp, level, true)
-		if known != "" {
-			c.Skip(skipKnown)
-			return
-		}
 		// Split and Merge (hence Extract*, which splits first) work on NTT values unconditionally
 		// (SwitchCiphertextRingDegreeNTT, products with X^±1 in the NTT domain) and never look at
 		// ct.IsNTT, whereas Expand and Pack convert a coefficient-domain input: silent garbage.
@@ -299,6 +295,12 @@ func packScenario(logN, minLogN int, ch rk.Chain, bound int) engine.Scenario {
 		})
 		if pan != nil {
 			c.Fail(sig("panic"), "%s: panicked: %v", cfg, pan)
+			return
+		}
+		if err != nil && known == sigPackCoeffDomain {
+			// Split / Merge work on NTT values: refusing a coefficient-domain operand with an error is
+			// the documented way out (the defect is processing it silently)
+			c.Cover("rejected", "RingPacking.Split|Merge/coefficient-domain-input")
 			return
 		}
 		if err != nil {
